@@ -31,6 +31,17 @@ def gen_op(rng, w, first, hardlinks):
     k = rng.random()
     if w.filters and rng.random() < 0.25:
         # names the configuration excludes (or that the tool ignores): they must never show up in diff, list or the content
+        if d == 'd1' and rng.random() < 0.4:
+            # siblings of the content file kept on this disk: they are ordinary entries (only the file, its .tmp and its .lock are skipped)
+            n = rng.choice(['snapraid.content.bak', 'snapraid.content.tmp.bak', 'snapraid.content.locked-2026', 'snapraid.content2', 'snapraid.content.d/in', 'da/snapraid.content'])
+            j = rng.random()
+            if j < 0.6:
+                return ['create', d, n, rng.choice(SIZES)]
+            if j < 0.75:
+                return ['symlink', d, 'snapraid.content.lnk', rng.choice(['a', 'snapraid.content'])]
+            if j < 0.85:
+                return ['mkdir', d, 'snapraid.content.e']
+            return ['delete', d, rng.choice([n, 'snapraid.content.lnk', 'snapraid.content.e'])]
         n = rng.choice(['.hid', 'x.tmp', 'da/y.tmp', 'exdir/a', 'da/.h2', 'exdir/in/b', 'da/exdir/c', 'em2/z.tmp'])
         j = rng.random()
         if j < 0.5:
@@ -478,6 +489,24 @@ def scripted(chk, binary, shim, model, rng, tier):
         finally:
             shutil.rmtree(H.w.arr.root, ignore_errors=True)
         out.append(H)
+    for v in range(2):
+        # (g) a data disk that holds no regular file at all, only links and empty directories (from the start, or after its files left)
+        cfg = {'nd': 3, 'np': 1, 'order': ['alpha', 'dir'][v], 'uuid': v == 0, 'multi': False, 'where': 'tmpfs', 'both_scans': False,
+               'seed': rng.getrandbits(32), 'scripted': 'links_only_disk', 'gui': v == 1}
+        H = Hist(chk, binary, shim, model, random.Random(cfg['seed']), cfg)
+        try:
+            first = [['create', 'd1', 'a', 2048], ['create', 'd2', 'b', 100], ['symlink', 'd3', 'lnk', 'nowhere'], ['mkdir', 'd3', 'skel/sub']]
+            if v == 1:
+                first.append(['create', 'd3', 'f', 1024])
+            ok = H.step(first)
+            ok = ok and H.step([['delete', 'd3', 'f']] if v == 1 else [['symlink', 'd3', 'l2', 'lnk']])
+            ok = ok and H.step([['create', 'd1', 'c', 10]])
+            ok = ok and H.step([['delete', 'd3', 'lnk'], ['mkdir', 'd3', 'e2']])
+            if ok and model:
+                c11_model.flush_drift(H)
+        finally:
+            shutil.rmtree(H.w.arr.root, ignore_errors=True)
+        out.append(H)
     for v in range(nvar):
         # (e) a file changes between the scan and the sync loop
         action = ['touch', 'rm', 'append', 'replace'][v % 4]
@@ -522,7 +551,9 @@ def scripted(chk, binary, shim, model, rng, tier):
             w = H.w
             ok = H.step([['create', 'd1', 'a', 2500], ['create', 'd1', 'da/b', 1024], ['create', 'd2', 'c', 0], ['symlink', 'd1', 'l1', 'a'], ['symlink', 'd2', 'da/l2', 'nowhere'],
                          ['symlink', 'd1', 'keepl', 'da/b'], ['create', 'd1', 'e0', 0], ['mkdir', 'd1', 'em'], ['mkdir', 'd2', 'da/ee/f'], ['create', 'd1', 'x.tmp', 100], ['create', 'd1', '.hid', 10], ['create', 'd2', 'exdir/q', 10],
-                         ['fifo', 'd2', 'em3/pipe'], ['create', 'd2', 'onlytmp/z.tmp', 5]] + ([['hardlink', 'd1', 'a', 'zh']] if cfg['order'] == 'alpha' else []))
+                         ['fifo', 'd2', 'em3/pipe'], ['create', 'd2', 'onlytmp/z.tmp', 5],
+                         ['create', 'd1', 'snapraid.content.bak', 1500], ['create', 'd1', 'snapraid.content.tmp.bak', 10], ['create', 'd1', 'snapraid.content.locked-2026', 0],
+                         ['create', 'd1', 'snapraid.content2', 1024], ['create', 'd1', 'snapraid.content.d/in', 100], ['symlink', 'd1', 'snapraid.content.lnk', 'a'], ['mkdir', 'd1', 'snapraid.content.e']] + ([['hardlink', 'd1', 'a', 'zh']] if cfg['order'] == 'alpha' else []))
             ok = ok and H.step([['delete', 'd1', 'l1'], ['delete', 'd1', 'em'], ['delete', 'd2', 'da/l2'], ['copy', 'd1', 'e0', 'd2', 'e0']] + ([['delete', 'd1', 'zh']] if cfg['order'] == 'alpha' else []))
             if ok:
                 # the content file as an old version would have written it: no nanoseconds recorded; nothing changed on the disks
@@ -533,7 +564,7 @@ def scripted(chk, binary, shim, model, rng, tier):
                 w.log.append(['content-without-nanoseconds', nf])
                 H.stats['old_nsec_files'] = H.stats.get('old_nsec_files', 0) + nf
                 ok = H.step([])
-            ok = ok and H.step([['delete', 'd2', 'da/ee/f'], ['create', 'd2', 'exdir/q2', 3]])
+            ok = ok and H.step([['delete', 'd2', 'da/ee/f'], ['create', 'd2', 'exdir/q2', 3], ['delete', 'd1', 'snapraid.content.bak'], ['rewrite', 'd1', 'snapraid.content2'], ['delete', 'd1', 'snapraid.content.lnk']])
             if ok and model:
                 c11_model.flush_drift(H)
         finally:
